@@ -11,6 +11,7 @@ CLAIMED = {
  "C05": ("crash points at every file-system mutating call of klevdb inside publish (with rollover), delete (every structural outcome), eager migration and Recover itself, torn appends with a symbolic prefix length, followed by the real Open(Recover): recovered content, agreement of all views, NextOffset, idempotence of Recover, append + Check; counterexamples are replayed natively on an instrumented build that dies at the same call", "§4 C05"),
  "C06": ("the same crash points under the tail-loss model: at the crash every file is cut to a symbolic length between its last fsynced length and its current length; everything acknowledged by Sync / AutoSync / Close survives Open(Recover)", "§4 C06"),
  "C07": ("Segment.Check / Segment.Recover on a head segment of valid records cut at a symbolic length, with one symbolic byte changed in any field, and with a truncated / changed / extended index; all four index configurations", "§4 C07"),
+ "C08": ("PARTIAL: every pair of concurrent calls with at least one Publish or Delete (plus the read/read pairs that race on the lazy index rebuild) on small directories through the real Open, under a schedule variable with bounded preemptions at mutex/atomic/channel/file-system operations: both calls succeed, results are those of a sequential order, publishers get disjoint consecutive offsets, tailing readers see no gap; thorough adds appends that become visible in two steps. Data-race freedom (lockset), more than two concurrent calls and free-running mixes are NOT decided", "§4 C08, §10.6"),
  "C09": ("GetByKey / OffsetByKey / ConsumeByKey on arbitrary well-formed directories with FNV as an uninterpreted function (free collisions), present and rebuilt indexes", "§4 C09"),
  "C10": ("index.Time for all arrays within the bound, and GetByTime / OffsetByTime on arbitrary well-formed directories with non-decreasing times (equal runs across segment boundaries, empty head, rebuilt indexes)", "§4 C10"),
  "C11": ("after every step harness the reference decoder checks every segment's index file against the index derived from its log file; reopen with every removal pattern of index files, read-write and read-only, all four index configurations", "§4 C11"),
@@ -20,6 +21,7 @@ CLAIMED = {
  "C15": ("FindBy*/TrimBy*Multi (offset, count, size, age) on the real log opened on arbitrary directories, bounds symbolic", "§4 C15"),
  "C16": ("FindUpdates/FindDeletes/CompactUpdates*/CompactDeletes* on the real log over symbolic 1-byte keys with tombstones; latest value per key preserved, also for repeated/alternating rounds", "§4 C16"),
  "C17": ("Migrate (twice), EagerVersionMigrate, delete-by-rewrite with/without KeepRewriteVersion, publish with NewSegmentsVersion on single- and mixed-version directories", "§4 C17"),
+ "C18": ("pkg/notify and the blocking wrapper (over a minimal sequential Log) under a schedule variable with bounded waiters / publishers / preemptions, optional Close and context cancellation: immediate return below NextOffset, no lost wake-up at quiescence, never woken for nothing, result consistent with Consume, closed / cancelled errors", "§4 C18, §10.6"),
  "C19": ("open/close/failed-open/publish sequences over three handles against the exclusion matrix on a flock model; read-only session equals read-write answers, ErrReadonly, log files untouched", "§4 C19"),
  "C20": ("Log.Backup and Backup(src,dst) into an empty directory and repeated after publish-only steps (with rollover), symbolic mtimes; backup passes Check and opens to the same log; source unchanged", "§4 C20"),
 }
@@ -47,7 +49,7 @@ def main():
                 "design_ref": "DESIGN.md " + ref,
             },
             "level_note": "trusted base: the gosym SSA->SMT-LIB encoder (checked on every run by replaying solver models of reach labels natively), z3 4.8.12, the environment models named under stubs_used in the evidence (file system by its documented contract, CRC32C/FNV as uninterpreted functions, clock, flock); bounds in coverage.harnesses[*].bounds",
-            "technique": "symbolic execution of go/ssa + SMT (z3, QF_BV+UF), bounded; native replay of models",
+            "technique": ("symbolic execution of go/ssa + SMT (z3, QF_BV+UF) with the schedule as a case-split variable, bounded; schedule counterexamples re-executed concretely on the SSA" if pid in ("C08", "C18") else "symbolic execution of go/ssa + SMT (z3, QF_BV+UF), bounded; native replay of models"),
         })
     na = [{"property_id": p, "reason": NA.get(p, NOT_YET)} for p in props if p not in CLAIMED]
     m = {
